@@ -48,7 +48,7 @@ def evidence(prop, meta, tier, seed, results, violations, known_hits, wall, tool
             'status': r.status, 'reason': r.reason, 'obligations': len(r.obligations), 'discharged': ok,
             'back_end': {'sat': 'cbmc built-in SAT (minisat2)', 'cvc5': 'cvc5 via cbmc --cvc5', 'z3': 'z3'}[g.solver],
             'solver_s': round(r.solver_s, 2), 'wall_s': round(r.wall_s, 2),
-            'scope': g.scope, 'instances': r.n_instances,
+            'scope': g.scope, 'instances': r.n_instances, 'native_execution': r.native,
             'vacuity_covers': {'goals': r.cover_total, 'satisfied': r.cover_sat,
                                'normal_return_reachable': r.covers.get('end'), 'abort_reachable': r.covers.get('abort')},
             'source_preparation': r.prep,
@@ -74,8 +74,15 @@ def evidence(prop, meta, tier, seed, results, violations, known_hits, wall, tool
         'known_findings_hit': [k[0]['text'] for k in known_hits],
         'undecided_groups': [r.group.gid for r in results if r.status == 'undecided'],
     }
-    inst = sum((r.n_instances or 0) for r in byk['B'])
-    nontriv = sum(r.cover_sat for r in byk['B']) + sum(1 for r in byk['P'] + byk['S'] if r.covers.get('end'))
+    def b_eval(r):
+        n = r.native or {}
+        return n.get('scenarios') or n.get('checks') or 0
+
+    def b_nontriv(r):
+        n = r.native or {}
+        return n.get('nontrivial') if n.get('scenarios') else (n.get('sites') or 0)
+    inst = sum(b_eval(r) for r in byk['B'])
+    nontriv = sum(b_nontriv(r) for r in byk['B']) + sum(1 for r in byk['P'] + byk['S'] if r.covers.get('end'))
     if meta['level'] == 'proof':
         # only unbounded obligations count for a proof-level claim
         cov['obligations'] = count(byk['P']) + count(byk['S'])
@@ -87,10 +94,13 @@ def evidence(prop, meta, tier, seed, results, violations, known_hits, wall, tool
     else:
         cov['evaluations'] = inst + len(byk['P']) + len(byk['S'])
         cov['distinct_nontrivial'] = nontriv
-        cov['rule'] = ("evaluations = concrete instances executed by CBMC inside the bounded (B) groups (counted by the instance generator) "
+        cov['rule'] = ("evaluations = scenarios enumerated by the bounded (B) harnesses, counted by executing the same harness text natively "
+                       "on the real code (VF_SCEN counter; for harnesses without scenario markers: number of assertion evaluations) "
                        "+ one per proved/step group (each decides its contract for all inputs at once). "
-                       "distinct_nontrivial = number of cover goals reached in B groups (one goal per generated instance / per operation branch, "
-                       "instances are distinct by construction of the generator) + P/S groups whose normal-return cover goal is satisfiable.")
+                       "distinct_nontrivial = scenarios the harness marks non-trivial (structure with more than one element; scenarios are distinct by "
+                       "construction of the enumeration; for harnesses without markers: number of distinct assertion sites evaluated) "
+                       "+ P/S groups whose normal-return canary is reachable.")
+        cov['traces_validated_against_impl'] = sum(1 for r in byk['B'] if r.native and r.native.get('ran') and not r.native.get('failed'))
         cov['obligations'] = n_obl
         cov['discharged'] = n_ok
         cov['checker_cmd'] = 'see groups[].  exact commands: out/logs/%s/<group>.log' % prop
@@ -140,12 +150,40 @@ _p('C14', 'proof', 'DESIGN.md 5/C14',
     "element size is a constant per instance (view: 4 bytes, newly requested: 8 bytes); element counts up to 2^32 for existing views, unrestricted for requests",
     "the shared-pointer functions are verified with their bodies inlined (no assumed contracts); views are: empty, internal buffer, external buffer; slice/unslice targets are the object itself or an empty object"])
 
+NORM = NORMALISE_TRUST
+_p('C01', 'model_checking', 'DESIGN.md 5/C01',
+   [BOUNDED_ASSUME, CALLBACK_ASSUME, HIST_ASSUME,
+    "scope: every insertion sequence (hinted and unhinted alternating) of length <= 3 (thorough: <= 4) over keys {0,1,2} -- all BST shapes reachable that way, duplicates included -- each followed by find of every key, erase of every key (twice) and re-insert; plus 8-key trees in 2 (thorough: 4) insertion orders x 3 (8) erase orders; traversal and clear on the same trees",
+    "no unbounded (P/S) obligation decides this property: CBMC has no inductive heap predicates; step contracts for rotate / __cstl_bintree_erase planned in DESIGN.md were not built"],
+   [NORM])
+_p('C02', 'model_checking', 'DESIGN.md 5/C02',
+   [BOUNDED_ASSUME, CALLBACK_ASSUME, HIST_ASSUME,
+    "scope: as C01 on the red-black tree; after every insert and erase: root black, no red-red, equal black count on every root-to-NULL path, parent back-links, cstl_rbtree_height == longest path <= 2*log2(n+1)",
+    "the step contracts for cstl_rbtree_fix_insertion / fix_deletion planned in DESIGN.md were not built; the loop-level argument is checked only inside the bounded scope"],
+   [NORM])
+_p('C11', 'model_checking', 'DESIGN.md 5/C11',
+   [BOUNDED_ASSUME, CALLBACK_ASSUME,
+    "proved (unbounded, every count): linear find returns the first match / -1 (element sizes 1 and 4), reverse mirrors exactly (element size 1), binary search index arithmetic stays inside the array for arbitrary comparison outcomes; cstl_swap fast paths are executed inside these proofs",
+    "bounded: all five sort selectors on every array of length <= 3 (thorough: <= 4) over a 3-letter alphabet, element sizes 1, 4, 12 (12: length <= 2 / 3); QUICK_R with every first pivot and two second pivots, later draws 0; termination of QUICK_R for adversarial rand() is not claimed",
+    "functional correctness of binary search on sorted arrays is bounded (same arrays): quantified sortedness is beyond the installed solvers (DESIGN.md section 2)"],
+   [NORM])
+_p('C12', 'model_checking', 'DESIGN.md 5/C12',
+   [BOUNDED_ASSUME, STEP_ASSUME, CALLBACK_ASSUME, HIST_ASSUME,
+    "step contracts (unbounded in the rest of the ring): __cstl_dlist_insert (between distinct neighbours / into the empty ring / after the last node), __cstl_dlist_erase (distinct neighbours / only node)",
+    "bounded: lists of every length 0..5; every position for insert/erase; concat/swap over all length pairs (0..5 x 0..3); foreach in both directions with every stop position with and without removal of the visited element; sort/find for every key assignment over {0,1,2} to lists of length <= 3 (thorough <= 4)"],
+   [NORM])
+
 NOT_APPLICABLE = {
     'C06': "every-thread-interleaving refcounting: CBMC's contract instrumentation (DFCC) is sequential; a function contract relates one call's pre- and post-state and cannot quantify over schedules. The sequential bookkeeping is covered by C05.",
     'C18': "header/link usability is a property of preprocessor and linker configurations (symbol multiplicity across translation units); no function contract expresses it and goto-cc is not the project's linker.",
 }
 
+BTECH = "contract-based verification with CBMC 6.11: the representation invariant and abstract view asserted around the real operations on concretely enumerated small structures (bounded, --unwinding-assertions), DFCC step contracts where built"
 TEXT = {
+    'C01': ("Bounded whole-operation contract checks: CBMC executes the real insert/find/erase/foreach/clear of bintree.c and rbtree.c on every tree in the stated scope and an independent walker re-establishes 'exactly the inserted-minus-erased elements, in order, each linked once, parent links consistent, size equal' after every operation; find/erase results are checked against the membership view; traversal bracket structure, order and early stop are checked at every visit index. Nothing is proved beyond the scope.", BTECH),
+    'C02': ("Bounded: after every insert and erase on every red-black tree in scope the walker checks root black, no red-red, equal black height on all paths, back-links, and the 2*log2(n+1) height bound through the real cstl_rbtree_height. Nothing is proved beyond the scope.", BTECH),
+    'C11': ("Unbounded proofs for linear find, reverse and the index arithmetic of binary search (loop contracts, ghost index instead of quantifiers); bounded checks for the five sort selectors, binary search results and the vector wrappers on every small array over a 3-letter alphabet with byte-identity tags and canaries.", "contract-based verification with CBMC 6.11: DFCC function + loop contracts (find, reverse, search arithmetic); bounded contract checks for the sorts"),
+    'C12': ("Step contracts prove the ring primitives relink exactly the named nodes for every surrounding ring; bounded checks compare the ring with a reference sequence in both directions after every public operation on all lists of length 0..5.", BTECH),
     'C05': ("Per-operation contracts over symbolic reference counters (1 <= hard <= soft < 2^31): each operation changes (hard, soft) by exactly the change in the number of owners/references, the clear callback runs once on live memory and the memory is freed exactly at hard 1->0, the block exactly at soft 1->0 (frees clauses + was_freed), lock yields an owner iff hard >= 1, unique <=> soft == 1; plus a loop-free closed scenario with leak audit under every allocation-failure subset.",
             "contract-based deductive verification: CBMC 6.11 DFCC function contracts with frees clauses on memory.c, SAT back end"),
     'C09': ("Unbounded contract proofs for every request size (all 2^64 values) per element-size instance: capacity >= size, storage is one live allocation of >= (capacity+1)*size bytes computed in 128 bits, bytes in range survive reallocation, reserve is a quiet no-op and resize aborts when growth is impossible, at aborts iff index >= size, constructors/destructors run exactly once per entering/leaving element in order (loop contracts).",
